@@ -327,6 +327,33 @@ def cases(chunk):
                 c["kind"] = "seq"
                 yield c
                 continue
+            if rng.random() < 0.15:
+                # the documented externals dictionary (operate("A=A/factor", {"factor": value})): the SAME expression
+                # text is evaluated two or three times, on this track, with other values for its external identifiers
+                v, w = rng.choice(NAMES), rng.choice(NAMES)
+                K1, K2 = ["var", "k1"], ["var", "k2"]
+                shape = rng.randrange(5)
+                if shape == 0:
+                    ast = ["bin", "+", ["bin", "*", ["var", v], K1], ["var", w]]
+                elif shape == 1:
+                    ast = ["bin", "-", ["bin", "/", ["var", v], K1], ["bin", "*", K2, ["var", w]]]
+                elif shape == 2:
+                    ast = ["fn", "ABS", ["bin", "-", ["var", v], K1]]
+                elif shape == 3:
+                    ast = ["bin", "+", ["bin", "*", K1, K2], ["var", v]]
+                else:
+                    ast = ["bin", "*", ["par", ["bin", "+", ["var", v], K1]], ["par", ["bin", "-", ["var", w], K2]]]
+                form = rng.choice([{"form": "expr"}, {"form": "expr"}, {"form": "assign_new", "target": "c"},
+                                   {"form": "assign_existing", "target": rng.choice(NAMES)}])
+                stmts = []
+                for _ in range(rng.randrange(2, 4)):
+                    stmts.append(dict(form, ast=ast, via="operate",
+                                      ext={"k1": rng.choice([2.0, 4.0, 10.0, 0.5, 3.0, 2.5]),
+                                           "k2": rng.choice([0.5, 1.0, 3.0, 10.0, 2.0])}))
+                c["stmts"] = stmts
+                c["kind"] = "seq"
+                yield c
+                continue
             if rng.random() < 0.25:
                 # an aggregate evaluated INSIDE an assignment, the same name then changed (by that very assignment or
                 # by a later one), and the same aggregate asked for again: nothing remembered from the first
@@ -545,10 +572,27 @@ def judge_stmt(tr, env, n, stmt, ctx, cls):
                                         "(nothing may change without a completed '=')", "expression": text,
                                 "problem": p, "how_it_failed": got}
         return "held", None
+    ext = stmt.get("ext")
+    body = E.to_str(ast)
+    if ext:
+        cls.add("externals_dictionary")
+
+        def subst(node):
+            if node[0] == "var" and node[1] in ext:
+                return ["num", repr(float(ext[node[1]]))]
+            if node[0] in ("num", "var"):
+                return node
+            if node[0] == "par":
+                return ["par", subst(node[1])]
+            if node[0] == "neg":
+                return ["neg", subst(node[1]), node[2]]
+            if node[0] == "fn":
+                return ["fn", node[1], subst(node[2])]
+            return ["bin", node[1], subst(node[2]), subst(node[3])]
+        ast = subst(ast)
     tree_classes(ast, cls)
     if not E.well_typed(ast):
         return "ood", "function applied to a literal"
-    body = E.to_str(ast)
     target = stmt.get("target")
     if form == "expr":
         text = body
@@ -575,7 +619,10 @@ def judge_stmt(tr, env, n, stmt, ctx, cls):
     stmt["_nops"] = n_operator_nodes(eff)
     before = state(tr)
     del RPN_LOG[:]
-    if stmt.get("via") == "getitem" and any(c in text for c in "+-*/^<>()='"):
+    if ext:
+        cls.add("via:operate")
+        got = M.call(tr.operate, text, dict(ext))
+    elif stmt.get("via") == "getitem" and any(c in text for c in "+-*/^<>()='"):
         cls.add("via:getitem")
         got = M.call(lambda: tr[text])
     else:
@@ -863,7 +910,7 @@ def classify(case, witness):
 
 # floors for the call-history workloads added in session 3 (a run in which they were silently skipped is inconclusive)
 _floors_base = floors
-_FLOORS_EXTRA = {'classes': {'nan_in_minmax': 500, 'repeated_function_term': 1000}}
+_FLOORS_EXTRA = {'classes': {'nan_in_minmax': 500, 'repeated_function_term': 1000, 'externals_dictionary': 500}}
 
 
 def floors(tier):
